@@ -206,8 +206,8 @@ Proof.
       apply negb_true_iff in A. apply declared_type_spec in B. split.
       - intros ->. rewrite String.eqb_refl in A. discriminate.
       - destruct B as [->|B]; [rewrite String.eqb_refl in A; discriminate | exact B]. } split.
-    { intros f sig t Hin Ht. specialize (H4 (f, sig) Hin). cbn [snd] in H4. rewrite forallb_forall in H4.
-      apply declared_type_spec, H4, Ht. } split.
+    { intros f sig Hin. specialize (H4 (f, sig) Hin). cbn [snd] in H4. apply andb_true_iff in H4. destruct H4 as [A B].
+      split; [apply nodupb_NoDup, A|]. intros p t Hp. rewrite forallb_forall in B. apply declared_type_spec, (B (p, t) Hp). } split.
     { intros a Ha. specialize (H5 a Ha). rewrite !andb_true_iff in H5. destruct H5 as [[A B] C].
       split; [apply nodupb_NoDup, A|]. split; [|apply refs_ok_spec, C].
       intros p t Hin. rewrite forallb_forall in B. apply declared_type_spec, (B (p, t) Hin). } split; [exact H6|].
@@ -221,7 +221,9 @@ Proof.
         * apply forallb_forall. intros [p t] Hin. apply declared_type_spec, (B p t Hin).
         * apply refs_ok_spec, C. }
     split.
-    2:{ intros [f sig] Hin. cbn [snd]. apply forallb_forall. intros t Ht. apply declared_type_spec, (H4 f sig t Hin Ht). }
+    2:{ intros [f sig] Hin. cbn [snd]. destruct (H4 f sig Hin) as [A B]. apply andb_true_iff. split.
+        * apply nodupb_NoDup, A.
+        * apply forallb_forall. intros [p t] Hp. apply declared_type_spec, (B p t Hp). }
     split.
     2:{ intros [o t] Hin. destruct (H3 o t Hin) as [A B]. cbn [snd]. apply andb_true_iff. split.
         * apply negb_true_iff. destruct (String.eqb t "") eqn:E; [apply String.eqb_eq in E; contradiction | reflexivity].
